@@ -68,8 +68,11 @@ Definition store_iter (st : store) (from limit : N) : list N :=
   let ks := filter (fun k => from <=? k) (s_flushed st) in
   if limit =? 0 then ks else firstn (N.to_nat limit) ks.
 
-(* PurgeQueue -> DeleteByPrefix on the engine: the pending maps are not touched *)
-Definition store_purge (st : store) : store := mkStore (s_add st) (s_upd st) (s_del st) [].
+(* PurgeQueue (since /repo 390cc62): serialised with persist; every pending add of the queue is cancelled by a
+   delete of the same key (the next persist confirms it and never writes it), the pending updates are dropped,
+   then DeleteByPrefix on the engine *)
+Definition store_purge (st : store) : store :=
+  mkStore (s_add st) [] (fold_left set_key (s_add st) (s_del st)) [].
 
 (* ---- the queue ----------------------------------------------------------------------- *)
 
@@ -130,7 +133,8 @@ Definition q_ack (c : qcfg) (s : qstate) (id : N) (p : bool) : qstate :=
       (swapped s) (lastStored s) (lastMem s) (qlen s) (allids s).
 
 (* Queue.Purge: returns queueLength; clears the ring; PurgeQueue on the persistent store of a durable
-   queue; the transient store, swappedToDisk and the last ids are left as they are *)
+   queue (flushed keys deleted, pending adds cancelled, pending updates dropped); the transient store,
+   swappedToDisk and the last ids are left as they are *)
 Definition q_purge (c : qcfg) (s : qstate) : Z * qstate :=
   (qlen s, mkQ [] (if durable c then store_purge (pst s) else pst s) (tst s)
                (swapped s) (lastStored s) (lastMem s) 0%Z (allids s)).
@@ -406,10 +410,10 @@ Definition no_findings_safety (c : qcfg) (ls : list label) : bool :=
 (* ---- label lists with restarts ------------------------------------------------------------------
    The specification is the ghost run: the unlimited list with its delivered-unsettled set; a Restart
    replaces the list by [restart_list].  Hypotheses as before, plus, for the store to hold exactly what
-   must come back: the queue is durable, and a purge happens only when the persistent store has no pending
-   add/update (open finding F41: such entries are written after the purge and come back at the next
-   restart) and no persistent message is delivered-unsettled (Purge deletes the store entries of unsettled
-   deliveries too: they do not come back). *)
+   must come back: the queue is durable, and a purge happens only when no persistent message is
+   delivered-unsettled (open finding F41-unsettled: Purge deletes the store entries of unsettled deliveries
+   too: they do not come back).  What the persistent store holds pending at a purge is cancelled by the
+   purge itself (F41, repaired in /repo 390cc62). *)
 Definition gspec_step (g : ghost) (lab : label) : ghost * out :=
   (ghost_step g lab, match lab with Restart => ONone | _ => snd (spec_step (g_list g) lab) end).
 
@@ -428,8 +432,7 @@ Definition hyp_r_step (c : qcfg) (s : qstate) (g : ghost) (lab : label) : bool :
   match lab with
   | Restart => durable c
   | Purge => hyp_step c s Purge &&
-             (negb (durable c) ||
-              (isnil (s_add (pst s)) && isnil (s_upd (pst s)) && forallb (fun k => negb (inb k (g_pers g))) (g_outst g)))
+             (negb (durable c) || forallb (fun k => negb (inb k (g_pers g))) (g_outst g))
   | _ => hyp_step c s lab
   end.
 
